@@ -20,22 +20,40 @@ theorem C12_scopePass_mkeys (measured : List (Key × List (List Nat × Nat))) (o
   | cons o os ih => simp [scopePassS, ih]
 
 /-- without sub-circuits (no instance stamps anywhere) lexical binding is binding against everything recorded so far -/
-theorem C12_flat_is_dynamic (measured : List Key) (ops : List RawOp) (h : ∀ o ∈ ops, o.stamps = []) :
+theorem C12_flat_is_dynamic (measured : List Key) (ops : List RawOp)
+    (h : ∀ o ∈ ops, o.stamps = [] ∧ ∀ c ∈ o.conds, c.stamps = []) :
     scopePassS (measured.map (fun k => (k, []))) ops = scopePass measured ops := by
   induction ops generalizing measured with
   | nil => rfl
   | cons o os ih =>
-    have ho : o.stamps = [] := h o (by simp)
-    have hos : ∀ o' ∈ os, o'.stamps = [] := fun o' ho' => h o' (by simp [ho'])
-    have hvis : ((measured.map (fun k => (k, ([] : List (List Nat × Nat))))).filter
-        (fun m => visible m.2 o.stamps)).map (·.1) = measured := by
-      rw [ho]
+    have ho : o.stamps = [] := (h o (by simp)).1
+    have hc : ∀ c ∈ o.conds, c.stamps = [] := (h o (by simp)).2
+    have hos : ∀ o' ∈ os, o'.stamps = [] ∧ ∀ c ∈ o'.conds, c.stamps = [] := fun o' ho' => h o' (by simp [ho'])
+    have hvis : ∀ c ∈ o.conds, ((measured.map (fun k => (k, ([] : List (List Nat × Nat))))).filter
+        (fun m => visible m.2 c.stamps)).map (·.1) = measured := by
+      intro c hcm
+      rw [hc c hcm]
       simp [visible, List.filter_eq_self.mpr, Function.comp_def]
-    simp only [scopePassS, scopePass, hvis]
+    have hconds : o.conds.map (fun c =>
+          (bindCond c.scope (((measured.map (fun k => (k, ([] : List (List Nat × Nat))))).filter (fun m => visible m.2 c.stamps)).map (·.1)) c.key, c.index))
+        = o.conds.map (fun c => (bindCond c.scope measured c.key, c.index)) := by
+      apply List.map_congr_left
+      intro c hcm
+      rw [hvis c hcm]
+    simp only [scopePassS, scopePass, hconds]
     congr 1
     have := ih (measured ++ (o.mkey.map (fun k => k.prefixed o.scope)).toList) hos
     rw [← this, ho]
     simp
+
+/-- a condition put on a whole sub-circuit is written outside of it: every operation the sub-circuit unrolls to carries it
+first, with the scope and instance chain of the enclosing body (none at this level), so it is bound like a condition of a
+plain operation standing where the sub-circuit stands -/
+theorem C12_controlled_subcircuit (fuel : Nat) (pos : List Nat) (c : CircOp) (conds : List (Key × Int)) :
+    rawNode fuel pos (.sub c conds)
+      = (rawNode fuel pos (.sub c [])).map (fun o =>
+          { o with conds := conds.map (fun (k, i) => ({ key := k, index := i } : RawCond)) ++ o.conds }) := by
+  simp [rawNode]
 
 /-- a measurement made inside a sibling sub-circuit instance, or in another iteration of an enclosing loop, is not a
 binding candidate: its instance chain is not a prefix of the condition's -/
